@@ -312,14 +312,29 @@ def replay_traces(ctx, model, traces, timeout=3600, maxfail=500):
     return res
 
 
+def set_header_cfg(path, update):
+    """Rewrite the cfg object in the first line of an edges / traces file (same graph, another harness configuration)."""
+    with open(path) as fh:
+        first = json.loads(fh.readline())
+        rest = fh.read()
+    first["cfg"] = dict(first.get("cfg") or {}, **update)
+    with open(path, "w") as fh:
+        fh.write(json.dumps(first) + "\n" + rest)
+
+
 def graph_leg(ctx, module, model, gen_cfg, cfgobj, walks, walklen, allhist, sim_cfg=None, sim_num=0, sim_depth=0,
-              timeout=1500, sim_cfgobj=None, maxfail=500):
-    """The standard L2 leg: dump + replay the bounded graph, then (optionally) spec-simulated deep behaviours."""
+              timeout=1500, sim_cfgobj=None, maxfail=500, variants=None):
+    """The standard L2 leg: dump + replay the bounded graph, then (optionally) spec-simulated deep behaviours.
+    variants: further harness configurations (dict updates of cfgobj) under which the same graph / behaviours are replayed again."""
     edges = ctx.path(gen_cfg + ".edges")
     g = tlc_gen(ctx, module, gen_cfg, edges, cfgobj=cfgobj, timeout=timeout)
     r = replay(ctx, model, edges, walks=walks, walklen=walklen, allhist=allhist, maxfail=maxfail)
     log("  %s: %d edges / %d states; %d behaviours, %d steps, %d failures" % (
         gen_cfg, g["edges"], g["states"], r["behaviours"], r["steps"], r["failures_n"]))
+    for v in variants or []:
+        set_header_cfg(edges, v)
+        rv = replay(ctx, model, edges, walks=walks, walklen=walklen, allhist=allhist, maxfail=maxfail)
+        log("    variant %s: %d behaviours, %d failures" % (json.dumps(v), rv["behaviours"], rv["failures_n"]))
     os.remove(edges)
     if sim_cfg and sim_num:
         tr = ctx.path(sim_cfg + ".traces")
@@ -327,6 +342,10 @@ def graph_leg(ctx, module, model, gen_cfg, cfgobj, walks, walklen, allhist, sim_
         r2 = replay_traces(ctx, model, tr, maxfail=maxfail)
         log("  %s: %d simulated behaviours of depth <=%d (%d steps); %d failures" % (
             sim_cfg, s["traces"], sim_depth, s["steps"], r2["failures_n"]))
+        for v in variants or []:
+            set_header_cfg(tr, v)
+            rv = replay_traces(ctx, model, tr, maxfail=maxfail)
+            log("    variant %s: %d failures" % (json.dumps(v), rv["failures_n"]))
         os.remove(tr)
 
 
